@@ -204,9 +204,36 @@ def render(tabs, taylor):
     return "\n".join(out)
 
 
+def check_config_forwarding(src):
+    """EvolveConfig is how the propagators receive the tables.  Fail closed unless the class touches them in exactly
+    two statements, the plain constructions; anything else (re-slicing rows, re-labelling orders, ...) is not modelled."""
+    tree = ast.parse(src)
+    cls = [n for n in tree.body if isinstance(n, ast.ClassDef) and n.name == "EvolveConfig"]
+    if len(cls) != 1:
+        raise TranslateError("EvolveConfig not found in configs.py")
+    seen = []
+    for f in cls[0].body:
+        for st in ast.walk(f):
+            if isinstance(st, ast.stmt) and not isinstance(st, (ast.FunctionDef, ast.If, ast.For, ast.While, ast.With, ast.Try)):
+                txt = ast.unparse(st)
+                if "rk_config" in txt or "taylor_config" in txt or "RungeKutta" in txt or "TaylorExpansion" in txt:
+                    seen.append(txt)
+            elif isinstance(st, (ast.If, ast.While)):
+                txt = ast.unparse(st.test)
+                if "rk_config" in txt or "taylor_config" in txt:
+                    seen.append("test: " + txt)
+    want = ["self.rk_config = RungeKutta(rk_solver)", "self.taylor_config = TaylorExpansion(taylor_order)"]
+    if sorted(seen) != sorted(want):
+        raise TranslateError("EvolveConfig handles the coefficient tables in statements that are not modelled: %r" % (seen,))
+    imp = [ast.unparse(n) for n in tree.body if isinstance(n, ast.ImportFrom) and n.module and n.module.endswith("utils.rk")]
+    if imp != ["from renormalizer.utils.rk import RungeKutta, TaylorExpansion"]:
+        raise TranslateError("configs.py imports of utils.rk: %r" % (imp,))
+
+
 def main(repo="/repo"):
     src = open(repo + "/renormalizer/utils/rk.py").read()
     tabs, taylor = extract(src)
+    check_config_forwarding(open(repo + "/renormalizer/utils/configs.py").read())
     return render(tabs, taylor), tabs
 
 
